@@ -9,7 +9,7 @@ use core::arch::x86_64::*;
 
 /// SSE empowered implementation that will only work on `x86_64` with sse 4.1 enabled at the CPU
 /// level.
-#[derive(Debug, Default, Clone)]
+#[derive(Debug, Clone)]
 pub struct SseHash {
     v0L: V2x64U,
     v0H: V2x64U,
@@ -20,6 +20,12 @@ pub struct SseHash {
     mul1L: V2x64U,
     mul1H: V2x64U,
     buffer: HashPacket,
+}
+
+impl Default for SseHash {
+    fn default() -> Self {
+        unsafe { SseHash::force_new(Key::default()) }
+    }
 }
 
 impl HighwayHash for SseHash {
